@@ -238,6 +238,20 @@ CHECKS["C12"] = dict(engine="E1+E2", cat="model_checking", design="4/C12",
                           "every permutation of every list of <= 4 issues over the context grid.",
                      note="'quoted in the message' is checked as substring occurrence; inputs restricted to schema 8.3.0")
 
+CHECKS["C14"] = dict(engine="E1", cat="model_checking", design="4/C14",
+                     technique="exhaustive (thorough) / structural-class (quick) enumeration of seeding positions for each "
+                               "fault kind on the XML source tree of every bundled schema, one fault per instance",
+                     text="All 9 bundled standard / partnered schemas must pass unchanged (no error-severity issue, errors-only "
+                          "result empty). 16 fault kinds (duplicate node; undeclared and wrong-section attributes derived from "
+                          "the schema's own attribute definitions; dangling unit class / value class / suggested / related tag; "
+                          "class attributes on a non-placeholder; deprecatedFrom unknown / not older; bad conversion factor; "
+                          "foreign default units; unknown allowedCharacter; foreign inLibrary; hedId out of range / malformed / "
+                          "changed against a version-bumped successor) are seeded at every applicable node / unit / class / "
+                          "modifier (quick: <= 5 per (kind, section, depth) class, ~2.1k instances) and must be reported with "
+                          "the specification code naming the seeded entry; with warnings off exactly the error subset.",
+                     note="quick tier samples positions per structural class (stated, not exhaustive); thorough is wall-clock "
+                          "capped and reports completed ranges; attribute-value faults are warnings in this code base")
+
 PENDING_REASON = "check not built yet in this revision (planned in DESIGN.md section 4); not claimed until it is"
 
 
